@@ -368,6 +368,17 @@ class G:
             ("brace_param", ["v%d=abc" % t, "echo ${v%d:-" % t, "}x; P"]),
             ("assign_only", ["v%d=1" % t, "echo $v%d $LINENO; P" % (t, )]),
             ("dollar_sq", ["echo $'ds%d\\n" % t, "x'; P"]),
+            ("cont_blank", ["echo cb%d joined \\" % t, "", "echo after%d $LINENO; P" % t]),
+            ("cont_blank2", ["echo cb%d joined \\" % t, "", "", "", "echo after%d $LINENO; P" % t]),
+            ("cont_cont_blank", ["echo cx%d \\" % t, "\\", "", "echo after%d $LINENO; P" % t]),
+            ("cont_ws_blank", ["echo cw%d \\" % t, "   ", "echo after%d $LINENO; P" % t]),
+            ("cont_comment", ["echo cc%d \\" % t, "# comment after a continuation", "echo after%d $LINENO; P" % t]),
+            ("cont_comment_blank", ["echo cc%d \\" % t, "", "# comment", "", "echo after%d $LINENO; P" % t]),
+            ("cont_op_blank", ["true && \\", "", "echo cob%d $LINENO; P" % t, "echo after%d $LINENO" % t]),
+            ("blank_inside_if", ["if true", "", "then", "", "echo bi%d $LINENO; P" % t, "", "fi", "echo after%d $LINENO" % t]),
+            ("blank_inside_group", ["{", "", "echo bg%d $LINENO" % t, "", "", "}", "echo after%d $LINENO; P" % t]),
+            ("blank_in_heredoc", ["cat <<E", "", "hb%d" % t, "", "E", "echo after%d $LINENO; P" % t]),
+            ("blank_in_sq", ["echo 'bq%d" % t, "", "' | tr -d '\\n'; echo", "echo after%d $LINENO; P" % t]),
             ("case_in_cmdsub_paren", ["v=$(case x in (x) echo cp%d;; esac); echo $v; P" % t]),
         ]
 
@@ -427,7 +438,8 @@ def gen_random(rng, depth=0):
     lines = []
     for _ in range(rng.randint(1, 4)):
         lines += item(0)
-    last = rng.choice([None, None, "(exit 7)", "false", "exit 5", "true"])
+        lines.append("echo L%d $LINENO" % g.tag())          # a probe between constructs
+    last = rng.choice([None, None, "(exit 7)", "false", "exit 5", "true", "echo ce \\", "echo end $LINENO"])
     return lines, last, g.feats
 
 
@@ -446,13 +458,17 @@ def gen_exhaustive(level):
     out.append((("exh1", "top", "defect"), g.defect_leaf(), None, set(g.feats)))
     g = G()
     out.append((("exh1", "if", "defect"), ["if true; then"] + g.defect_leaf() + ["fi"], None, set(g.feats)))
+    for li in range(nl):          # a continuation as the very last line of the input
+        g = G()
+        l = g.leaves()[li]
+        out.append((("exh1", "cont_eof", l[0]), list(l[1]) + ["echo mid $LINENO"], "echo ce \\", {l[0]}))
     if level >= 2:
         for a in range(nl):
             for b in range(nl):
                 g = G()
                 la = g.leaves()[a]
                 lb = g.leaves()[b]
-                out.append((("exh2", la[0], lb[0]), list(la[1]) + list(lb[1]), "echo end $? $LINENO", {la[0], lb[0]}))
+                out.append((("exh2", la[0], lb[0]), list(la[1]) + ["echo mid $LINENO"] + list(lb[1]), "echo end $? $LINENO", {la[0], lb[0]}))
     return out
 
 
@@ -574,17 +590,20 @@ def bash_positions(text_pos, chunks):
 # ------------------------------------------------------------------------------------------------
 # checks
 
-KNOWN_HEREDOC = "heredoc_line_continuation"
 MAXV = 8
 
 
 class Lim:
+    """Collects the failures of one family; `flush` reports the smallest ones (a minimal failing input first)."""
+
     def __init__(self, ctx):
-        self.ctx, self.n = ctx, 0
+        self.ctx, self.items = ctx, []
 
     def violation(self, what, case, kind="property"):
-        self.n += 1
-        if self.n <= MAXV:
+        self.items.append((0 if kind == "property" else 1, len(str(case.get("text") or case.get("script") or case.get("history") or "")), len(self.items), what, case, kind))
+
+    def flush(self):
+        for _, _, _, what, case, kind in sorted(self.items)[:MAXV]:
             self.ctx.violation(what, case, kind=kind)
 
 
@@ -603,7 +622,16 @@ def acc_all(texts):
         tables.append(parts[1][2:])
         reqs.append("C15 acc %s %s" % (esc_list(split_lines(t)), parts[1][2:]))
     mouts = lib.run_drv_parallel(reqs)
-    mch = [unesc_list(m[3:]) if m.startswith("CH=") else None for m in mouts]
+    mch, moff = [], []
+    for m in mouts:
+        f = m.split(" ")
+        if len(f) == 2 and f[0].startswith("CH=") and f[1].startswith("OFF="):
+            mch.append(unesc_list(f[0][3:]))
+            moff.append([int(x) for x in f[1][4:].split(",")] if f[1][4:] else [])
+        else:
+            mch.append(None)
+            moff.append(None)
+    acc_all.offsets = moff
     return okh, errs, bch, mch, tables
 
 
@@ -638,14 +666,47 @@ def check_chunks(ctx, progs):
                 ctx.known_or_violation(KNOWN_CASE, why, case)
             else:
                 lim.violation(why, case)
+    lim.flush()
     ctx.sample({"family": "chunks", "text": texts[len(texts) // 2], "brush_chunks": bch[len(texts) // 2]})
+
+
+PROBE_LINE = re.compile(r"echo (L\d+|mid|end)( \$\?)? \$LINENO")
+
+
+def lineno_tie(ctx, lim, p, t, r, bc, mc, mo):
+    """The model's line accounting (chunks -> offsets, `$LINENO` = offset + line in chunk) against what brush prints
+    for the stand-alone probe lines when the program comes from standard input."""
+    if KNOWN_CASE in p["feats"] or bc is None or mc is None or mo is None or bc != mc:
+        return
+    out = r["brush"]["stdin"][1].split("\n")
+    for k, c in enumerate(mc):
+        m = PROBE_LINE.fullmatch(c.rstrip("\n"))
+        if not m or c.count("\n") != 1:
+            continue
+        tag = m.group(1)
+        got = [l.split(" ")[-1] for l in out if l.split(" ")[0] == tag]
+        if len(got) != 1:
+            continue                      # the probe did not run exactly once (exit, loop): nothing to compare
+        ctx.bucket("lineno_probe_vs_model")
+        if got[0] != str(mo[k] + 1):
+            same = r["brush"]["stdin"][:2] == r["brush"]["file"][:2]
+            lim.violation("line accounting model and brush disagree: `$LINENO` of `%s` on standard input is %s, the model "
+                          "(offset %d + 1) says %d%s" % (c.strip(), got[0], mo[k], mo[k] + 1,
+                                                       "" if same else "; the same program as a script file prints a different number"),
+                          {"family": "deliver", "text": t, "feats": sorted(p["feats"]), "brush_chunks": bc, "model_offsets": mo,
+                           "brush": {m_: r["brush"][m_][:2] for m_ in MODES}, "bash": {m_: r["bash"][m_][:2] for m_ in MODES}},
+                          kind="correspondence" if same else "property")
+            return
 
 
 def check_delivery(ctx, progs):
     lim = Lim(ctx)
     texts = [finish(p["lines"], PROBE_DELIVERY, p["last"]) for p in progs]
     res = lib.pmap(deliver, texts)
-    for p, t, r in zip(progs, texts, res):
+    okh, errs, bch, mch, tables = acc_all(texts)
+    moff = acc_all.offsets
+    for p, t, r, bc, mc, mo in zip(progs, texts, res, bch, mch, moff):
+        lineno_tie(ctx, lim, p, t, r, bc, mc, mo)
         ctx.count(("deliver", t), nontrivial=len(p["lines"]) >= 2, bucket="deliver_" + p["key"][0])
         for f in p["feats"]:
             ctx.bucket("feat_" + f)
@@ -668,10 +729,9 @@ def check_delivery(ctx, progs):
         b0 = (bm["file"][0], mask_ml(bm["file"][1]))
         a0 = (ref[0], mask_ml(ref[1]))
         if b0 != a0:
-            if "heredoc_bs" in p["feats"] and (b0[0], re.sub(r"(?m)^(h\d+ a)\\\nb", r"\1b", b0[1])) == a0:
-                ctx.known_or_violation(KNOWN_HEREDOC, "backslash-newline inside an unquoted here-document is kept", case)
-            else:
+            if True:
                 lim.violation("every delivery mode agrees in brush but differs from bash", case)
+    lim.flush()
     ctx.sample({"family": "deliver", "text": texts[len(texts) // 2], "brush": res[len(texts) // 2]["brush"]["stdin"][:2]})
 
 
@@ -737,6 +797,7 @@ def check_invalid(ctx, cases):
         if end != eline:
             lim.violation("text that can no longer become a command is not handed over at the line where bash reports "
                           "the syntax error (brush's chunk ends at line %s, bash stops at line %s)" % (end, eline), case)
+    lim.flush()
 
 
 # ------------------------------------------------------------------------------------------------
@@ -847,6 +908,7 @@ def check_cache_inproc(ctx, nhist, hlen):
             lim.violation("cache model (key from the current source) and brush disagree on a parse history",
                           {"family": "cache", "component": comp, "history": [[CACHE_TEXTS[ti], o] for ti, o in h],
                            "model": m, "brush": bids}, kind="correspondence")
+    lim.flush()
     ctx.sample({"family": "cache", "history": [[CACHE_TEXTS[ti], o] for ti, o in hists[-1][:6]]})
 
 
@@ -894,6 +956,7 @@ def check_cache_exec(ctx, nhist):
             # first differing step
             lim.violation("evaluating a text depends on what was evaluated earlier under other options (one process vs fresh processes)",
                           {"family": "cache_exec", "script": "".join(_step(*c) for c in h), "long_lived": out, "fresh_concatenated": want})
+    lim.flush()
     ctx.sample({"family": "cache_exec", "script": "".join(_step(*c) for c in hists[-1][:3])})
 
 
@@ -936,9 +999,15 @@ def run(ctx):
     # the reader: everything (cheap: in-process harness + two bash runs)
     check_chunks(ctx, corpus + exh1 + exh2 + rnd)
     # delivery modes: 10 processes per program
-    nd = ctx.size(120, 3000)
+    nd = ctx.size(100, 3000)
     sub2 = exh2 if not ctx.quick else [exh2[i] for i in sorted(rng.sample(range(len(exh2)), 60))]
-    check_delivery(ctx, corpus + exh1 + sub2 + rnd[:nd])
+    core = ("top", "if", "func", "for", "case", "subshell", "cont_eof", "defect")
+    if ctx.quick:      # every leaf under the core wrappers, a seeded half of the other wrapper x leaf combinations
+        rest = [p for p in exh1 if p["key"][1] not in core]
+        sub1 = [p for p in exh1 if p["key"][1] in core] + [rest[i] for i in sorted(rng.sample(range(len(rest)), len(rest) // 2))]
+    else:
+        sub1 = exh1
+    check_delivery(ctx, corpus + sub1 + sub2 + rnd[:nd])
     check_invalid(ctx, gen_invalid(rng, ctx.size(100, 2000)))
     check_cache_inproc(ctx, ctx.size(150, 3000), ctx.size(40, 150))
     check_cache_exec(ctx, ctx.size(60, 1500))
